@@ -8,13 +8,13 @@ TB = "Trusted base: go/types + go/ssa (x/tools v0.29.0) represent the source fai
 
 P = {
  "C01": dict(tech="path-sensitive provenance analysis on go/ssa (pathwalk) + who-may-call scans",
-   text="Decides, for every path of ValidateEncodedResponse with validation enabled, where each decoded Response/Assertion came from: the element returned by a successful dsig Validate, or (unsigned root) a header-only decode with both assertion lists reset and appends only of freshly allocated, individually verified direct children; only ErrMissingSignature at the root continues; parseResponse screens the very bytes it parsed. Holds for all inputs because it is a property of every control-flow path, not of sampled documents.",
+   text="Decides, for every path of ValidateEncodedResponse with validation enabled, where each decoded Response/Assertion came from: the element returned by a successful dsig Validate, or (unsigned root) a header-only decode with both assertion lists reset and appends only of freshly allocated, individually verified direct children; only ErrMissingSignature at the root continues; parseResponse screens the very bytes it parsed into a document created for that attempt; both traversal handlers (Assertion, EncryptedAssertion) demand a direct child of the processed root; the validation context is built per call over sp.IDPCertificateStore / sp.Clock; the header is decoded before any tree mutation. Holds for all inputs because it is a property of every control-flow path, not of sampled documents.",
    note="Not decided: correctness of dsig.Validate itself (contract, audited by shape in the thorough tier), parser differentials beyond the round-trip screen, ID-collision handling inside goxmldsig. " + TB, ref="DESIGN.md §3 C01"),
  "C02": dict(tech="who-may-construct / receiver scans + path-sensitive error-discipline analysis",
    text="Every validation context is built in validationContext() over sp.IDPCertificateStore with ctx.Clock = sp.Clock, every Validate receiver comes from it, and at all four verify sites the only non-fatal error is ErrMissingSignature at a root site, whose continuation leaves the trust flag constant false.",
    note="Not decided: x509 equality / signature mathematics and verifyCertificate's behaviour (dependency; shape-audited in thorough). " + TB, ref="DESIGN.md §3 C02"),
  "C03": dict(tech="required-fact table over all SSA paths (guard inventory) with loop generic-iteration",
-   text="Every accepting path of Validate carries each of the 17 profile checks plus the expiry comparison; per-assertion checks hold at every completed iteration of a loop over the whole Assertions slice; each rejection returns the typed error naming the element; Validate(obj)==nil is the last event on every object ValidateEncodedResponse returns.",
+   text="Every accepting path of Validate carries each of the 17 profile checks plus the expiry comparison; per-assertion checks hold at every completed iteration of a loop over the whole Assertions slice; each rejection returns the typed error naming the element; Validate(obj)==nil is the last event on every object ValidateEncodedResponse returns; each assertion Validate inspects was decoded into its own fresh target.",
    note="Not decided: that encoding/xml fills the structs faithfully (C08 / dependency). " + TB, ref="DESIGN.md §3 C03"),
  "C04": dict(tech="typestate of trust-flag fields: who-may-write scan, path-sensitive flag<=>provenance, struct-tag table",
    text="The five trust indicators are written only by the validators; on every accepting path the returned flag is a compile-time constant that is true exactly when the object was decoded from the element returned by the successful check of the parsed root with validation on; xml:\"-\" keeps input from setting them; the summary flag mirrors the Response flag.",
@@ -26,7 +26,7 @@ P = {
    text="NotInAudience is stored exactly on generic outer iterations whose inner loop over that restriction's Audiences is exhausted without an exact == match, never with zero restrictions; OneTimeUse and ProxyRestriction mirror presence, Count and the audience list in order.",
    note="String equality semantics are Go's; nothing else assumed beyond the trusted base. " + TB, ref="DESIGN.md §3 C06"),
  "C07": dict(tech="value-flow and event-order analysis on SSA paths; truth tables for the certificate window",
-   text="Decrypted plaintext only re-enters the tree (parseResponse -> Root -> AddChild on the processed element); decryption precedes the verifying traversal over the same root; the EncryptedAssertion handler demands a direct child; every path to an RSA unwrap has the recipient-certificate guard on the decoded EncryptedKey struct; getDecryptCert validates the returned certificate's leaf with the closed window on the SP clock.",
+   text="Decrypted plaintext only re-enters the tree (parseResponse -> Root -> AddChild on the processed element); decryption precedes the verifying traversal over the same root; the EncryptedAssertion handler demands a direct child; every path to an RSA unwrap has the recipient-certificate guard on the decoded EncryptedKey struct; getDecryptCert validates the returned certificate's leaf with the closed window on the SP clock on every accepting path and returns a certificate built in that call (no memoised value).",
    note="Not decided: confidentiality / malleability of CBC, RSA mathematics. " + TB, ref="DESIGN.md §3 C07"),
  "C09": dict(tech="per-instruction panic obligations (bounds via linear path facts, nil-ness, preconditions) over the call-graph cone",
    text="For every module function reachable from the 6 inbound entry points and 3 decrypt routines, every index, slice, pointer dereference, interface call, map update, division, explicit panic and precondition-bearing std call is discharged on every path; every return of the entry points yields exactly one of (non-nil result, non-nil error).",
@@ -35,7 +35,7 @@ P = {
    text="Both logout validators carry Version, Destination-vs-SLO-URL, Issuer and (responses) Success checks with typed errors on every accepting path; fatal verification errors; decode from the verified root (or raw root on the missing-signature continuation) with flag <=> verified root and false under skip; root structs have distinct tagged XMLNames; the two validators agree path class by path class.",
    note="As C01/C02. " + TB, ref="DESIGN.md §3 C10"),
  "C11": dict(tech="table agreement (advertised vs handled constants), key-source decision tables over all valid configurations, expression-shape and rejection-whitelist rules",
-   text="STRUCTURAL PART ONLY: every advertised / exported algorithm constant has a decrypting case; the key that decrypts and the certificate reported/published pick the same source in all 12 valid field/setter configurations; nonce/IV split and padding removal have the required shape; no rejection outside the safety whitelist on the symmetric layer.",
+   text="STRUCTURAL PART ONLY: every advertised / exported algorithm constant has a decrypting case; the key that decrypts and the certificate reported/published pick the same source in all 12 valid field/setter configurations; nonce/IV split and padding removal have the required shape; no rejection outside the safety whitelist on the symmetric layer; the symmetric key is the whole RSA plaintext of base64(CipherValue) obtained with the primitive the transport identifier names; every advertised algorithm's cipher family matches its identifier.",
    note="Explicitly NOT decided: byte-exact round trip for every plaintext length and algorithm pairing, OAEP/MGF semantics (cryptographic run-time behaviour). The checked clauses are necessary conditions: breaking one breaks the round trip for some input/configuration. " + TB, ref="DESIGN.md §3 C11"),
  "C12": dict(tech="who-may-call scan + value-flow / bounds analysis of maybeDeflate on SSA paths",
    text="The only decompressor constructor in the library is in maybeDeflate, its reader flows only into io.LimitReader(r, max+1) (max = parameter, 5 MiB when 0), only the limited reader is read, the second decode is reached only with len(out) <= max proven from path facts, both attempts call the same decoder, and every entry point routes through it with the configured / default limit.",
@@ -47,13 +47,13 @@ P = {
    text="STRUCTURAL PART ONLY: every field the property enumerates decodes from the SAML-schema element/attribute name, namespace and Go type; RetrieveAssertionInfo wires NameID, every attribute in order, the AuthnStatement fields and the whole assertion list from the validated response; Get/GetSize/GetAll have the first / count / all-in-order shape with empty results for nil map and absent key; decode targets are fresh and decoded from verified elements.",
    note="Explicitly NOT decided: that every conforming serialisation is accepted and that text survives comments / CDATA / character references / canonicalisation (behaviour of etree, encoding/xml, goxmldsig over unbounded inputs). The checked clauses are necessary conditions. " + TB, ref="DESIGN.md §3 C08"),
  "C13": dict(tech="expression-shape and sibling-agreement rules on SSA paths, lock-ordered event rules, who-may-call scans, decision-table agreement",
-   text="STRUCTURAL PART ONLY: each Sign* puts ConstructSignature(el, enveloped=true) from sp.SigningContext() at child index 1 of a copy (Issuer is created first by every builder); SigningContext applies algorithm and canonicalizer to the new context under the write lock and embeds the signer's own certificate; all signing goes through it; signer, reported certificate and both metadata signing descriptors pick the same key source in all 12 valid configurations.",
+   text="STRUCTURAL PART ONLY: each Sign* puts ConstructSignature(el, enveloped=true) from sp.SigningContext() at child index 1 of a copy keeping every other child once and in order (Issuer is created first, unconditionally, by every builder); builders use only the escaping tree API (no CDATA / raw sinks); SigningContext applies algorithm and canonicalizer to the new context under the write lock and embeds the signer's own certificate; all signing goes through it; signer, reported certificate and both metadata signing descriptors pick the same key source in all 12 valid configurations.",
    note="Explicitly NOT decided: that the produced signature verifies after serialisation and re-parse (c14n + RSA at run time). " + TB, ref="DESIGN.md §3 C13"),
  "C14": dict(tech="event-order and value-flow rules on SSA paths of the two redirect builders",
    text="STRUCTURAL PART ONLY: raw DEFLATE over a fresh buffer receives exactly the document, Close() is checked before the buffer is read, base64.StdEncoding everywhere; parameters are added to the endpoint's own Query() and RawQuery is exactly qs.Encode(); RelayState is added iff non-empty; the signing string is the QueryEscape/Encode'd pairs in the order SAMLRequest,[RelayState,]SigAlg over the values sent, signed by the same context whose identifier is SigAlg.",
    note="Explicitly NOT decided: inflate∘deflate, base64 and percent-coding round trips, that the signature verifies. Assumes the configured IdP endpoint does not itself carry SAMLRequest/RelayState/SigAlg/Signature parameters. " + TB, ref="DESIGN.md §3 C14"),
  "C15": dict(tech="document model reconstructed from the etree API event trace per SSA path; wiring and order tables",
-   text="Injection-safety by construction: every element/attribute name is a compile-time constant and no raw sink is used; each attribute/child of the three messages is emitted exactly under its condition from exactly the named configuration field or argument; IssueInstant is Format(Z-literal layout) of sp.Clock.Now().UTC(); children follow the schema sequence with Issuer first; the document root is the built element or Sign*(it) exactly under the signing condition.",
+   text="Injection-safety by construction: every element/attribute name is a compile-time constant and no raw sink is used; each attribute/child of the three messages is emitted exactly under its condition from exactly the named configuration field or argument; IssueInstant is Format(Z-literal layout) of sp.Clock.Now().UTC(); children follow the schema sequence with Issuer first; the document root is the built element or Sign*(it) exactly under the signing condition, and Sign* keeps every built child once and in order.",
    note="Not decided: well-formedness of etree's serialiser, characters outside the XML repertoire. " + TB, ref="DESIGN.md §3 C15"),
  "C16": dict(tech="package-identity scan, constant-template parsing at analysis time (text/template/parse), value-flow wiring",
    text="The three POST bodies are produced solely by html/template Execute into the returned buffer from a compile-time-constant template with only plain string field actions inside quoted attribute values, one POST form with action={{.URL}}, the base64 document field and a RelayState input exactly on the non-empty path; fields are wired from the flow's endpoint, base64.StdEncoding(document) and relayState.",
@@ -65,7 +65,7 @@ P = {
    text="Every ID attribute is a constant NCName-start prefix + String() of a uuid.NewV4() called in the same builder activation; NewV4 fills all 16 bytes of a fresh array from crypto/rand with the error fatal; version/variant transforms are correct for all 256 byte values and no other byte is overwritten; String() is the 8-4-4-4-12 lower-case hex layout.",
    note="Not decided: non-repetition (a probabilistic consequence of 122 random bits, not a code shape). " + TB, ref="DESIGN.md §3 C18"),
  "C20": dict(tech="sibling struct-tag comparison, decode-target type comparison, value-flow rules on the pre-decoders",
-   text="STRUCTURAL PART ONLY: every field of UnverifiedBaseResponse has the identical xml tag and type in Response; the logout pre-decoder and full validation fill the same type; both pre-decoders decode the base64-decoded input via maybeDeflate with the 5 MiB default into an object allocated inside each attempt and return the successful attempt's object.",
+   text="STRUCTURAL PART ONLY: every field of UnverifiedBaseResponse has the identical xml tag and type in Response; the logout pre-decoder and full validation fill the same type; both pre-decoders decode the base64-decoded input via maybeDeflate with the 5 MiB default into an object allocated inside each attempt and return the successful attempt's object; no library code writes a header field (or a field of the Issuer object) after decoding; on the unsigned-root path the header is decoded before the tree is modified.",
    note="Explicitly NOT decided: that encoding/xml on the raw bytes and on the re-serialised verified tree select the same attribute / Issuer for documents with duplicates or shadowing (parser behaviour on adversarial inputs). " + TB, ref="DESIGN.md §3 C20"),
 }
 
